@@ -305,6 +305,49 @@ def run_unit(unit) -> UnitResult:
                                                   f"{ctx.spec['name']}: after grammar.update_weights, the representation built before it maps a genotype to "
                                                   f"{_show(t_old)[:80]}, one built afterwards over the same grammar to {_show(t_new)[:80]}"))
                         break
+        # (F) one long-lived representation object: a genotype object is mapped and dies, another genotype object (other
+        # genes) is created at the very same address and mapped by the same representation: it gets the program of its own
+        # genes (the allocator is asked until the address is reused, see C20)
+        if rep_kind in ("ge", "stack", "sge") and len(gts) >= 2:
+            def clone(g0):
+                if rep_kind == "sge":
+                    return type(g0)({k: list(v) for k, v in g0.dna.items()})
+                return type(g0)(list(g0.dna))
+
+            rep_long = mk(ExhaustiveSource(()))
+            usable = [(g0, t0) for g0, t0 in zip(gts, first_pass) if t0 and t0[0] not in ("exc", "<horizon>")]
+            others = [(g0, t0) for g0, t0 in zip(gts, first_pass)]
+            for (ga, ta), (gb, tb) in list(zip(usable[:12], reversed(others[:40])))[:12]:
+                if ta == tb:
+                    continue
+                a = clone(ga)
+                try:
+                    rep_long.genotype_to_phenotype(a)
+                except BaseException:  # noqa
+                    continue
+                dead = id(a)
+                del a
+                spare, b2 = [], clone(gb)
+                while id(b2) != dead and len(spare) < 300:
+                    spare.append(b2)
+                    b2 = clone(gb)
+                if id(b2) != dead:
+                    continue
+                del spare
+                r.count("genotypes_mapped_at_the_address_of_a_dead_one")
+                try:
+                    t_b2 = R.term(rep_long.genotype_to_phenotype(b2))
+                except HorizonExceeded:
+                    t_b2 = ("<horizon>",)
+                except Exception as e:  # noqa
+                    t_b2 = ("exc", type(e).__name__)
+                r.executions += 2
+                if t_b2 != tb:
+                    r.add_violation(Violation(PROP, site, "mapping-depends-on-earlier-genotype-objects", {"rep": rep_kind, "decider": unit["decider"]},
+                                              {"unit": P.clean_unit(unit), "genotype": repr(genotype_snapshot(gb))[:300]},
+                                              f"{ctx.spec['name']}: a representation that had mapped (and outlived) another genotype object maps this genotype "
+                                              f"to {_show(t_b2)[:80]}, its genes encode {_show(tb)[:80]}"))
+                    break
         # (D) dynamic SGE only: genotypes that are NOT fully populated (crossover children hold empty or short gene lists for
         # symbols one parent never read; mutants differ in one gene): the first mapping may extend them from the shared
         # source, after that the genotype is complete -- every later mapping gives the same program and draws nothing
